@@ -20,6 +20,7 @@ Oracle (independent of the model, evaluated on the real observations after every
 import itertools
 import asyncio
 import logging
+import sys
 
 from harness.core import Failure, Prop
 
@@ -1003,9 +1004,42 @@ class C04(Prop):
         state = self._parse_dump(driver.ask('dump'))
         return outs, state, chosen
 
+    CASE_WALL_S = 60
+
+    def _run_bounded(self, case):
+        """Run the real side of one case under two watchdogs: asyncio.wait_for (something awaits forever: a blocked
+        cleanup(), a sequence that never ends) and a SIGALRM wall-clock alarm (the event loop itself is stuck in a
+        CPU-bound evaluation). Either way the case ends with a diagnostic, never with a hang."""
+        import signal
+
+        def on_alarm(signum, frame):
+            raise TimeoutError(f'C04 case exceeded {self.CASE_WALL_S + 10} s of wall clock (event loop blocked)')
+
+        task = self.loop.create_task(asyncio.wait_for(self._real(case), self.CASE_WALL_S))
+        old = signal.signal(signal.SIGALRM, on_alarm)
+        signal.alarm(self.CASE_WALL_S + 10)
+        try:
+            return self.loop.run_until_complete(task)
+        except BaseException:
+            signal.alarm(0)
+            if not task.done():
+                task.cancel()
+                try:
+                    self.loop.run_until_complete(asyncio.wait([task], timeout=5))
+                except BaseException:
+                    pass
+            self.core_main.enable_updating()
+            if isinstance(sys.exc_info()[1], TimeoutError):
+                raise RuntimeError(f'C04 case stalled: the real side did not finish within {self.CASE_WALL_S} s '
+                                   '(blocked await, or event loop stuck in an evaluation); case abandoned') from None
+            raise
+        finally:
+            signal.alarm(0)
+            signal.signal(signal.SIGALRM, old)
+
     # ------------------------------------------------------------------------------------------------ oracle + diff
     def run_case(self, case, driver):
-        obs = self.loop.run_until_complete(asyncio.wait_for(self._real(case), 120))
+        obs = self._run_bounded(case)
         ops = case['ops'][:len(obs)]
         model = self._model({'ops': ops}, obs, driver)
         tags = set()
